@@ -220,7 +220,14 @@ class SecondsTimedeltaProvider(MorphingProvider):
         def timedelta_loader(data):
             if type(data) not in ok_types:
                 raise TypeLoadError(Union[int, float, Decimal], data)
-            return timedelta(seconds=int(data), microseconds=int(data % 1 * 10 ** 6))
+            try:
+                if type(data) is Decimal:
+                    # Decimal's int() and % both truncate toward zero, so the two parts are consistent
+                    return timedelta(seconds=int(data), microseconds=int(data % 1 * 10 ** 6))
+                # timedelta itself splits int and float seconds exactly, rounding to the nearest microsecond
+                return timedelta(seconds=data)
+            except (ValueError, OverflowError, InvalidOperation):
+                raise ValueLoadError("Value is out of the range of timedelta", data)
 
         return timedelta_loader
 
